@@ -490,4 +490,16 @@ def main():
 
 
 if __name__ == "__main__":
-    sys.exit(main())
+    try:
+        rc = main()
+    except SystemExit:
+        raise
+    except BaseException as exc:  # the machinery itself failed: the property is not shown on this tree
+        import traceback
+        pid = sys.argv[1] if len(sys.argv) > 1 else "?"
+        rp = write_replay(pid, 0, "quick", "replay_internal_error.json",
+                          {"verdict": "check-machinery-failed", "theorem_or_shard": "tools/check.py",
+                           "error": "".join(traceback.format_exception(type(exc), exc, exc.__traceback__))[-4000:]})
+        print("VIOLATION property=%s replay=%s no-failing-input-found" % (pid, rp))
+        rc = 1
+    sys.exit(rc)
